@@ -14,8 +14,8 @@ PROPS = {
         "props_files": ["C09"],
         "theorems": ["C09_union", "C09_merge", "C09_total_is_cardinality", "C09_complete",
                      "C09_empty_file_complete", "C09_gaps"],
-        "components": ["segments"],
-        "rule": "cases = operation histories on one Segments value (MERGE/GAPS/COMPLETE/LEN/END); bounded-exhaustive "
+        "components": ["segments", "recv"],
+        "rule": "Component recv: the lock-step receive-transaction scripts (incl. the family 'one segment lost for good plus as much stray data beyond the end of the file'), where the oracle requires that a file is judged complete only if every byte of [0, file size) is held. Component segments: cases = operation histories on one Segments value (MERGE/GAPS/COMPLETE/LEN/END); bounded-exhaustive "
                 "short histories over a small universe with every window query + seeded random histories (length<=40) over "
                 "4 universes (12 positions, 2^16, around 2^32, up to 2^64-1), 4% malformed (empty/inverted) segments; "
                 "non-trivial = at least 2 operations; distinct = distinct op-list text",
